@@ -153,6 +153,12 @@ def vec(t):
               concrete=f"Vec<{t.concrete}>", trait_rust=f"Vec<{t.trait_rust}>")
 
 
+def qualified(t):
+    """`<svmon::Enc as svmon::Encoding<T>>::Wire` (= Vec<T>): T occurs only as a generic argument of a non-final path segment."""
+    return Ty(f"<svmon::Enc as svmon::Encoding<{t.rust}>>::Wire", lambda r, d: [t.gen(r, d + 1) for _ in range(r.choice([0, 1, 2]))], "vec", sub=(t,),
+              concrete=f"<svmon::Enc as svmon::Encoding<{t.concrete}>>::Wire", trait_rust=f"<svmon::Enc as svmon::Encoding<{t.trait_rust}>>::Wire")
+
+
 def tup(t, u):
     return Ty(f"({t.rust}, {u.rust})", lambda r, d: [t.gen(r, d + 1), u.gen(r, d + 1)], "tuple", sub=(t, u),
               concrete=f"({t.concrete}, {u.concrete})", trait_rust=f"({t.trait_rust}, {u.trait_rust})")
